@@ -5,6 +5,8 @@ package main
 import (
 	"context"
 	"encoding/binary"
+	"fmt"
+	"os"
 	"hash/crc32"
 	"math/big"
 	"sort"
@@ -705,6 +707,9 @@ func (e *Env) execNoDump(ctx context.Context, op *Op, pre *Dump) (*Obs, error) {
 		var n int
 		if n, err = e.runJob(ctx, op); err == nil {
 			resp = &Resp{Kind: "count", Count: int64(n)}
+		}
+		if os.Getenv("VERIF_DEBUG") != "" {
+			fmt.Fprintf(os.Stderr, "job %p %s age=%v max=%d n=%d err=%v\n", e, op.Job, op.MinAge, op.MaxN, n, err)
 		}
 	default:
 		panic("unknown op kind " + op.Kind)
